@@ -335,6 +335,8 @@ func checkC03(c *Ctx) {
 	c.checkHistogramBucketCoverage("O4 bucket-coverage")
 	// ... and keeps them: the bound table histograms share by reference is written only where it is allocated (shared with C20 O6)
 	c.checkBoundTablePrivate("O6 keeps-bounds")
+	// the pairs / the storage built for a specification are a function of that specification's contents
+	c.checkNoGlobalState("O5 pairs-from-specification", c.fn("", "", "BucketPairs"), c.fn("", "", "newBucketStorage"))
 }
 
 // checkSearchIndex: A12.
@@ -1412,4 +1414,106 @@ func (c *Ctx) defaultingHelper(call *ssa.Call, fOpt *types.Var) string {
 		return "the helper does not choose between its argument and a package-level default"
 	}
 	return ""
+}
+
+// checkNoGlobalState: the functions in roots - and the module functions they call, transitively -
+// compute their result from their arguments alone: the only package-level variables they touch
+// are constant-like (only ever loaded outside package initialisation). A result that depends on a
+// table keyed by anything coarser than the argument's contents (a memo by slice identity, a
+// "last specification" variable) is the result for some other argument.
+func (c *Ctx) checkNoGlobalState(rule string, roots ...*ssa.Function) {
+	// classify every module global once
+	mutable := map[*ssa.Global]string{}
+	for _, fn := range c.AllFuncs {
+		isInit := fn.Name() == "init" && fn.Signature.Recv() == nil && fn.Parent() == nil
+		instrsOf(fn, func(in ssa.Instruction) {
+			for _, op := range in.Operands(nil) {
+				if op == nil || *op == nil {
+					continue
+				}
+				g, isG := (*op).(*ssa.Global)
+				if !isG || mutable[g] != "" {
+					continue
+				}
+				switch x := in.(type) {
+				case *ssa.UnOp:
+					continue // load
+				case *ssa.Store:
+					if x.Addr == ssa.Value(g) && isInit {
+						continue
+					}
+					mutable[g] = "it is assigned at " + c.pos(in.Pos()) + " (" + fn.String() + ")"
+				case *ssa.FieldAddr, *ssa.IndexAddr:
+					// reads of parts are fine; writes through the part are not
+					v := in.(ssa.Value)
+					if v.Referrers() != nil {
+						for _, u := range *v.Referrers() {
+							if _, isLoad := u.(*ssa.UnOp); isLoad {
+								continue
+							}
+							if _, isDbg := u.(*ssa.DebugRef); isDbg {
+								continue
+							}
+							if st, isSt := u.(*ssa.Store); isSt && isInit && st.Addr == v {
+								continue
+							}
+							mutable[g] = "a part of it is written or handed on at " + c.pos(u.Pos()) + " (" + fn.String() + ")"
+						}
+					}
+				case *ssa.DebugRef:
+					continue
+				default:
+					if isInit {
+						continue
+					}
+					mutable[g] = "its address is used at " + c.pos(in.Pos()) + " (" + fn.String() + ")"
+				}
+			}
+		})
+	}
+	n := 0
+	for _, root := range roots {
+		if root == nil {
+			continue
+		}
+		key := c.fnKey(root)
+		c.sawFunc(key)
+		seen := map[*ssa.Function]bool{}
+		okAll := true
+		var visit func(fn *ssa.Function, depth int)
+		visit = func(fn *ssa.Function, depth int) {
+			if fn == nil || fn.Blocks == nil || seen[fn] || depth > 5 || !c.inModule(fn) {
+				return
+			}
+			seen[fn] = true
+			n++
+			for _, lit := range fn.AnonFuncs {
+				visit(lit, depth+1)
+			}
+			instrsOf(fn, func(in ssa.Instruction) {
+				for _, op := range in.Operands(nil) {
+					if op == nil || *op == nil {
+						continue
+					}
+					if g, isG := (*op).(*ssa.Global); isG && mutable[g] != "" && g.Pkg != nil && c.ByPath[g.Pkg.Pkg.Path()] != nil {
+						if _, isDbg := in.(*ssa.DebugRef); isDbg {
+							continue
+						}
+						okAll = false
+						c.bad(rule, key+":"+g.Name(), in.Pos(), fmt.Sprintf("%s computes its result with the package-level variable %s, which is not constant (%s): the result for one argument depends on what earlier calls with other arguments left there - two specifications that differ only in content (same backing array, refilled) get each other's bounds", root.Name(), g.Name(), mutable[g]), c.describe(in))
+					}
+				}
+				if ci, isCall := in.(ssa.CallInstruction); isCall {
+					if g := staticCallee(ci); g != nil {
+						visit(g, depth+1)
+					}
+				}
+			})
+		}
+		visit(root, 0)
+		if okAll {
+			c.ok(rule, key, root.Pos(), fmt.Sprintf("%s and the %d module functions it reaches touch no package-level variable that is ever written after initialisation", root.Name(), len(seen)-1))
+		}
+	}
+	c.floor(rule, n, len(roots))
 }
